@@ -339,3 +339,13 @@ Theorem partition_is_source : forall t lab a remove_empty ignore_none,
   gen_partition t lab a remove_empty ignore_none = partition_t t a lab ignore_none remove_empty.
 Proof. exact gen_partition_is_partition_t. Qed.
 Print Assumptions partition_is_source.
+
+(* ---- translator tie, Table.collapse one-to-one (DESIGN 3.1 T20): Gen/CollapseGen.v is regenerated from
+   biom/table.py by tools/py2v_part (collapse subset) on every check ---- *)
+From BiomV Require Import Gen.CollapsePrelude Gen.CollapseGen Proofs.GenBridgeCollapseProofs.
+
+Theorem collapse_one_to_one_is_source : forall t lab norm min_group incl_md mode key strict a,
+  gen_collapse_one_to_one t lab norm min_group incl_md mode key strict a
+  = collapse_t t a (OneToOne lab min_group) norm incl_md mode.
+Proof. exact gen_collapse_is_collapse_t. Qed.
+Print Assumptions collapse_one_to_one_is_source.
